@@ -10,6 +10,7 @@ import FiddleModel.Model.Call
 import FiddleModel.Lemmas.Basic
 import FiddleModel.Lemmas.BuildKw
 import FiddleModel.Lemmas.OrderedKw
+import FiddleModel.Lemmas.PyCallPos
 
 namespace Fiddle
 open Sig
@@ -99,6 +100,73 @@ example : Sig.toArgsKwargs [⟨"a", .po, false⟩, ⟨"b", .po, true⟩, ⟨"c",
 
 example : buildCall [⟨"a", .po, true⟩, ⟨"b", .po, true⟩] { args := [(.idx 1, .v 5)] }
     = direct [⟨"a", .po, true⟩, ⟨"b", .po, true⟩] [(.idx 1, .v 5)] := by decide
+
+/-! ### From the argument lists to what the callable receives -/
+
+/-- **The callable receives the positional list slot by slot.** Whenever `build` forms the call
+    (`ordered_arguments` → `transform_to_args_kwargs` → `fn(*pos, **kw)`) and CPython binds it, the
+    `j`-th value of the positional list is what the `j`-th positional-mode parameter receives —
+    with `C01_positional_aligned`: its own configured value, else its own default — every named
+    parameter receives exactly one value, and what lies beyond the positional parameters is
+    exactly the `*args` tuple the callable sees. -/
+theorem C01_callable_receives_positionals (s : Sig) (hs : (s.positionalParams.map (·.name)).Nodup)
+    (c : Cfg) (b : Binding) (h : buildCall s c = .ok b) :
+    ∃ oa pos kw, c.orderedArguments s {} = .ok oa ∧ s.toArgsKwargs oa false false = .ok (pos, kw) ∧
+      b.var = pos.drop s.positionalParams.length ∧
+      b.slots.length = s.namedParams.length ∧
+      ∀ p v, (p, v) ∈ s.positionalParams.zip pos → (p.name, v) ∈ b.slots := by
+  unfold buildCall at h
+  cases hoa : c.orderedArguments s {} with
+  | error e => simp [hoa] at h
+  | ok oa =>
+    simp only [hoa] at h
+    cases hta : s.toArgsKwargs oa false false with
+    | error e => simp [hta] at h
+    | ok r =>
+      obtain ⟨pos, kw⟩ := r
+      simp only [hta] at h
+      cases hkl : kwList kw with
+      | error e => simp [hkl] at h
+      | ok kws =>
+        simp only [hkl] at h
+        exact ⟨oa, pos, kw, rfl, hta, pyCall_positional s hs pos kws b h⟩
+
+/-- Non-vacuity: `def f(a, b=…, /, *args)` configured with `a=1` and `*args=(7,)` — the unset `b`
+    is passed as its default, `7` arrives in `*args`. -/
+example : buildCall [⟨"a", .po, false⟩, ⟨"b", .po, true⟩, ⟨"args", .vp, false⟩]
+    { args := [(.idx 0, .v 1), (.idx 2, .v 7)] }
+    = .ok { slots := [("a", .v 1), ("b", .d "b")], var := [.v 7], kw := [] } := by decide
+
+/-- **The callable receives the keyword dict name by name.** Whenever `build` forms the call and
+    CPython binds it, every keyword naming a keyword-capable parameter is what that parameter
+    receives — with `C01_keywords_are_configured`: its own configured value — and the remaining
+    keywords are exactly the `**kwargs` dict the callable sees, in the order passed (with
+    `C01_keyword_order_kept` / `C01_kwargs_in_configured_order`: the configured order). -/
+theorem C01_callable_receives_keywords (s : Sig) (c : Cfg) (b : Binding) (h : buildCall s c = .ok b) :
+    ∃ oa pos kw kws, c.orderedArguments s {} = .ok oa ∧ s.toArgsKwargs oa false false = .ok (pos, kw) ∧
+      kwList kw = .ok kws ∧
+      b.kw = kws.filter (fun kv => !s.isKwParam kv.1) ∧
+      ∀ n v, (n, v) ∈ kws → s.isKwParam n = true → (n, v) ∈ b.slots := by
+  unfold buildCall at h
+  cases hoa : c.orderedArguments s {} with
+  | error e => simp [hoa] at h
+  | ok oa =>
+    simp only [hoa] at h
+    cases hta : s.toArgsKwargs oa false false with
+    | error e => simp [hta] at h
+    | ok r =>
+      obtain ⟨pos, kw⟩ := r
+      simp only [hta] at h
+      cases hkl : kwList kw with
+      | error e => simp [hkl] at h
+      | ok kws =>
+        simp only [hkl] at h
+        exact ⟨oa, pos, kw, kws, rfl, hta, hkl, pyCall_keywords s pos kws b h⟩
+
+/-- Non-vacuity: `def f(a, *, k=…, **kwargs)` with `a`, `k` and an extra `z` configured. -/
+example : buildCall [⟨"a", .pk, false⟩, ⟨"k", .ko, true⟩, ⟨"kwargs", .vk, false⟩]
+    { args := [(.name "a", .v 1), (.name "z", .v 3), (.name "k", .v 2)] }
+    = .ok { slots := [("a", .v 1), ("k", .v 2)], var := [], kw := [("z", .v 3)] } := by decide
 
 /-! ### The keyword part -/
 
